@@ -4,6 +4,7 @@ a 'minified' representation of the same source code.
 
 """
 
+import codecs
 import re
 
 import python_minifier.ast_compat as ast
@@ -203,17 +204,42 @@ def minify(
     return minified
 
 
+def _source_encoding(source):
+    """
+    The declared encoding of python source bytes, as described in PEP 263
+    """
+
+    if source.startswith(codecs.BOM_UTF8):
+        return 'utf-8'
+
+    for line in source.splitlines()[:2]:
+        cookie = re.match(br'^[ \t\f]*#.*?coding[:=][ \t]*([-\w.]+)', line)
+        if cookie:
+            return cookie.group(1).decode('ascii')
+
+        if not re.match(br'^[ \t\f]*(?:#.*)?$', line):
+            # Only a comment or blank first line may be followed by a coding cookie
+            break
+
+    return 'utf-8'
+
+
 def _find_shebang(source):
     """
     Find a shebang line in source
     """
 
     if isinstance(source, bytes):
-        shebang = re.match(br'^#!.*', source)
+        encoding = _source_encoding(source)
+
+        if source.startswith(codecs.BOM_UTF8):
+            source = source[len(codecs.BOM_UTF8):]
+
+        shebang = re.match(br'^#![^\r\n]*', source)
         if shebang:
-            return shebang.group().decode()
+            return shebang.group().decode(encoding)
     else:
-        shebang = re.match(r'^#!.*', source)
+        shebang = re.match(r'^#![^\r\n]*', source)
         if shebang:
             return shebang.group()
 
